@@ -78,6 +78,7 @@ void myth_verif_fspin(const char *label);
 /* like EV2, but dropped when the emitting worker is idle and the result is 0
    (a failed pop/steal attempt of an idle scheduler loop changes nothing) */
 #define MYTH_VERIF_EVZ2(n,a,b) myth_verif_evz(n, 2, (long)(a), (long)(b))
+#define MYTH_VERIF_EVZ3(n,a,b,c) myth_verif_evz(n, 3, (long)(a), (long)(b), (long)(c))
 /* logged only for locks that were given an id with VL() (descriptor locks, user spin locks) */
 #define MYTH_VERIF_EVLOCK(n,l) myth_verif_evlock(n, (const void*)(l))
 #define MYTH_VERIF_CHOOSE(lo,hi) myth_verif_choose((lo),(hi))
@@ -103,6 +104,7 @@ void myth_verif_fspin(const char *label);
 #define MYTH_VERIF_EV5(n,a,b,c,d,e) ((void)0)
 #define MYTH_VERIF_EV6(n,a,b,c,d,e,f) ((void)0)
 #define MYTH_VERIF_EVZ2(n,a,b) ((void)0)
+#define MYTH_VERIF_EVZ3(n,a,b,c) ((void)0)
 #define MYTH_VERIF_EVLOCK(n,l) ((void)0)
 #define MYTH_VERIF_CHOOSE(lo,hi) (-1)
 #define MYTH_VERIF_CLOCK(ts) (0)
